@@ -187,6 +187,7 @@ def run(check: Check):
                  'network fetch only on the not-cached arm', node=c)
   check.floor('R-ATOMIC', 'markers', n_markers, 3)
   check.floor('R-ATOMIC', 'writers', n_writers, 3)
+  _progress(check)
   _block_count(check)
   _validate_file(check)
 
@@ -286,9 +287,10 @@ def _response_checked(check: Check, fi, ff: FuncFlow, loop_node, cnt: ast.AST):
   """What is written is the payload of a successful response of known length: the status is checked before the first byte is
   written, and the length is read from the header in a way that fails when the header is missing (no default)."""
   gets = [(n, c) for n, c in ff.calls() if (ff.ext(c.func) or '').endswith(('requests.get', 'requests.request', 'urlopen')) or txt(c.func) in (
-      'requests.get',)]
+      'requests.get',) or txt(c.func).endswith(('.urlopen', 'urlopen'))]
   if not gets:
     check.undecided('maybe_download: no requests.get call recognised; status / length handling not judged')
+    check.ob('R-ATOMIC.status', fi, 'HTTP request', None, 'the call that opens the HTTP response was not recognised: status / length handling not judged')
     return
   gn, gc = gets[0]
   resp = None
@@ -305,9 +307,20 @@ def _response_checked(check: Check, fi, ff: FuncFlow, loop_node, cnt: ast.AST):
   write_nodes = [n for n, c in ff.calls() if isinstance(c.func, ast.Attribute) and c.func.attr == 'write']
   reach = ff.cfg.reachable_from([gn], avoid=status_nodes, labels_excluded=('exc', 'raise', 'reraise'))
   unchecked = [w for w in write_nodes if w.id in reach]
-  check.ob('R-ATOMIC.status', fi, f'{resp}.raise_for_status() before the first write', bool(status_nodes) and not unchecked,
+  raises_itself = txt(gc.func).endswith('urlopen')   # urllib raises HTTPError for 4xx / 5xx answers on its own
+  check.ob('R-ATOMIC.status', fi, f'{resp}.raise_for_status() before the first write', raises_itself or (bool(status_nodes) and not unchecked),
            'the HTTP status is checked on every path from the request to the first write: otherwise the body of a 404 / 500 answer is '
            'published under the final cache name and reused forever', node=gc)
+  # a body that ends early must raise: requests' raw stream (urllib3) enforces Content-Length; http.client's read(amt) (urlopen) returns
+  # the short data silently, so with it the code must compare what it wrote with the announced length itself
+  callee = (ff.ext(gc.func) or txt(gc.func))
+  if callee.endswith('urlopen') or txt(gc.func).endswith('urlopen'):
+    verified = any(n.kind == 'if' and any(isinstance(s_, ast.Raise) for s_ in n.ast.body) and any(
+        isinstance(x, ast.Call) and ((ff.ext(x.func) or '').endswith(('os.path.getsize', 'getsize')) or (isinstance(x.func, ast.Attribute) and x.func.attr == 'tell'))
+        for x in ast.walk(n.ast.test)) for n in ff.cfg.nodes)
+    check.ob('R-ATOMIC.truncated', fi, txt(gc)[:60], verified,
+             'urlopen().read(n) returns short data without raising when the peer closes early, and nothing compares the bytes written '
+             'with the announced length: a truncated download is renamed into place', node=gc, exact=True)
   # length: header subscript (KeyError when absent) - not .get(..., default)
   defaults = []
   for x in ff.deep_walk(cnt):
@@ -368,3 +381,28 @@ def _validate_file(check: Check):
           raises += 1
   check.ob('R-VALIDATE', fi, 'raise on size / digest mismatch', raises >= 2,
            f'{raises} mismatch tests that raise (size and digest expected)')
+
+
+def _progress(check: Check):
+  """The transfer loop is driven by the progress reporter (for _ in progress_(range-like n)): the default reporter yields every one of
+  its n steps - no early return, the yield sits unconditionally in `for i in range(n)` - otherwise blocks are never copied while the
+  file is still renamed into place."""
+  repo = check.repo
+  try:
+    fi = repo.func('fedjax.datasets.downloads', 'progress')
+  except Exception:  # pylint: disable=broad-except
+    return
+  ff = FuncFlow.of(repo, fi)
+  check.analysed(fi)
+  rets = [n for n in ff.cfg.nodes if n.kind == 'stmt' and isinstance(n.ast, ast.Return)]
+  loops = [n.ast for n in ff.cfg.nodes if n.kind == 'for' and isinstance(n.ast.iter, ast.Call) and ff.ext(n.ast.iter.func) == 'builtins.range'
+           and len(n.ast.iter.args) == 1 and ff.param_of(n.ast.iter.args[0]) == fi.positional_params[0]]
+  uncond = any(any(isinstance(st, ast.Expr) and isinstance(st.value, ast.Yield) for st in lp.body) and not any(
+      isinstance(x, (ast.Continue, ast.Break)) for x in ast.walk(lp)) for lp in loops)
+  early = [r for r in rets if not any(any(r.ast is y for y in ast.walk(lp)) for lp in loops)]
+  ok = True if (uncond and not early) else (False if early or loops else None)
+  check.ob('R-ATOMIC.progress', fi, 'for i in range(n): yield i', ok,
+           'the default reporter yields all n steps' if ok else
+           f'the default reporter can finish without yielding its n steps ({len(early)} early return(s)): the download loop it drives '
+           'copies nothing, and the empty file is published', node=early[0].ast if early else fi.node)
+
